@@ -42,7 +42,64 @@ def gen_interleaved(rng, nfiles, nops):
             res.append("create %d 0 3990 %s" % (f, nodedb.hx(b"afterclose")))
         elif f in closed and rng.random() < 0.5:
             res.append("reopen %d m" % f); closed.discard(f)
+    if nodedb.KEY_DESC_MOVE in nodedb.known_avoid():
+        res = drop_descendant_moves(res)
     return res, be
+
+
+def drop_descendant_moves(lines):
+    """The generator of nodedb keeps moves of a node under its own descendant out of its histories while that defect of both
+    back ends is a listed known finding (it ends in unbounded recursion).  The close events sprinkled in above make the real
+    tree differ from the generator's mirror (calls on a closed file are refused), so such a move can come back: the real
+    structure is followed here (what each call does to an OPEN file: parents, names, duplicates) and those moves are dropped"""
+    par, name, closed, out = {}, {}, set(), []
+    def sub(f, u):
+        got, todo = set(), [u]
+        while todo:
+            x = todo.pop()
+            got.add(x)
+            todo += [c for (ff, c), p in par.items() if ff == f and p == x and c not in got]
+        return got
+    def kids_names(f, p):
+        return {name[(ff, c)] for (ff, c), q in par.items() if ff == f and q == p}
+    for l in lines:
+        t = l.split(" ")
+        op = t[0]
+        f = int(t[1]) if len(t) > 1 and t[1].lstrip("-").isdigit() else None
+        if op == "file":
+            for k in [k for k in par if k[0] == f]:
+                del par[k]; name.pop(k, None)
+            par[(f, 0)] = None; name[(f, 0)] = ""
+            closed.discard(f)
+        elif op == "closef":
+            closed.add(f)
+        elif op == "reopen":
+            closed.discard(f)
+        elif f in closed or (f, 0) not in par:
+            pass
+        elif op in ("create", "link"):
+            p, u, nm = int(t[2]), int(t[3]), t[4]
+            if (f, p) in par and (f, u) not in par and nm not in kids_names(f, p) and nm != "-" and len(nm) <= 64 and "2f" not in \
+                    [nm[i:i + 2] for i in range(0, len(nm), 2)]:
+                par[(f, u)] = p; name[(f, u)] = nm
+        elif op == "delete":
+            p, u = int(t[2]), int(t[3])
+            if par.get((f, u)) == p and u != 0:
+                for x in sub(f, u):
+                    par.pop((f, x), None); name.pop((f, x), None)
+        elif op == "rename":
+            p, u, nm = int(t[2]), int(t[3]), t[4]
+            if par.get((f, u)) == p and u != 0 and nm not in kids_names(f, p) and nm != "-" and len(nm) <= 64:
+                name[(f, u)] = nm
+        elif op == "move":
+            p, u, np_ = int(t[2]), int(t[3]), int(t[4])
+            if par.get((f, u)) == p and u != 0 and (f, np_) in par:
+                if np_ in sub(f, u):
+                    continue                      # the known defect's trigger: not part of this history
+                if np_ != p and name[(f, u)] not in kids_names(f, np_):
+                    par[(f, u)] = np_
+        out.append(l)
+    return out
 
 
 def place(lines, be, workdir, tag):
